@@ -22,28 +22,41 @@ Subjects == { Addr, Item, Order, <<"list", Order>>, <<"dict", <<"str">>, Addr>>,
 
 Init == defs = <<>> /\ hist = <<>> /\ last = <<"none">>
 
+\* last = << kind, walk state after the call, settings of the call, subject, definitions before the call >>
 Build(T) == LET st == Visit(T, [defs |-> defs, out |-> {}]) IN
             /\ defs' = st.defs
-            /\ last' = <<"build", st>>
+            /\ last' = <<"build", st, Cfg0, T, defs>>
             /\ hist' = Append(hist, <<"Build", T, st.out, [n \in DOMAIN st.defs |-> st.defs[n]]>>)
 \* build_json_schema(T, with_definitions = wd) on a context of its own: the builder's context is untouched
 OneShot(T, wd) == LET st == Visit(T, Fresh) IN
                   /\ defs' = defs
-                  /\ last' = <<"oneshot", st>>
+                  /\ last' = <<"oneshot", st, Cfg0, T, <<>> >>
                   /\ hist' = Append(hist, <<"OneShot", T, wd, st.out, [n \in DOMAIN st.defs |-> st.defs[n]]>>)
+\* build_json_schema(T, context = builder.context, <one keyword>): runs with the keyword applied, collects into the SHARED
+\* definitions, and leaves the builder's own settings as they were -- the next Build runs with Cfg0 again
+Shared(T, ov) == LET st == VisitC(T, [defs |-> defs, out |-> {}], OvCfg(ov)) IN
+                 /\ defs' = st.defs
+                 /\ last' = <<"shared", st, OvCfg(ov), T, defs>>
+                 /\ hist' = Append(hist, <<"Shared", T, ov, st.out, [n \in DOMAIN st.defs |-> st.defs[n]]>>)
+Overrides == {"inline", "refs", "prefix"}
 Next == /\ Len(hist) < MaxLen
         /\ \/ \E T \in Subjects : Build(T)
            \/ \E T \in {Order, <<"list", Order>>}, wd \in BOOLEAN : OneShot(T, wd)
+           \/ \E T \in {Order, Item}, ov \in Overrides : Shared(T, ov)
 vars == <<defs, hist, last>>
 
-\* ---- properties (C20: every $ref starts with the configured prefix and names a collected definition; builds accumulate consistently)
-AllRefsNow == IF last[1] = "none" THEN {} ELSE RefsIn(last[2])
-PrefixRespected == \A r \in AllRefsNow : r[1] = EffPrefix
-RefsClosed == \A r \in AllRefsNow : r[2] \in DOMAIN last[2].defs
-InlineCollectsNothing == ~RefMode => (defs = <<>> /\ AllRefsNow = {})
-CollectsReachable == (last[1] = "build" /\ RefMode) => \A n \in Reach(hist[Len(hist)][2]) : n \in DOMAIN defs
-DefsMonotone == [][\A n \in DOMAIN defs : n \in DOMAIN defs' /\ defs'[n] = defs[n]]_vars
-
+\* ---- properties (C20: every $ref of a call starts with THAT CALL's prefix and names a collected definition; builds accumulate consistently)
+\* the references of the document a call returns and of the definitions it (re)wrote
+CallRefs == IF last[1] = "none" THEN {}
+            ELSE last[2].out \cup (IF last[3].refmode THEN UNION { last[2].defs[n] : n \in Reach(last[4]) \cap DOMAIN last[2].defs } ELSE {})
+PrefixRespected == \A r \in CallRefs : r[1] = last[3].prefix
+RefsClosed == \A r \in CallRefs : r[2] \in DOMAIN last[2].defs
+InlineCollectsNothing == (last[1] # "none" /\ ~last[3].refmode) => (last[2].out = {} /\ (last[1] = "oneshot" \/ last[2].defs = last[5]))
+CollectsReachable == (last[1] \in {"build", "shared"} /\ last[3].refmode) => \A n \in Reach(last[4]) : n \in DOMAIN defs
+\* a call with the builder's own settings never changes what an earlier such call collected; no call ever drops a definition
+OwnSettingsOnly(h) == \A i \in DOMAIN h : h[i][1] = "Shared" => OvCfg(h[i][3]) = Cfg0
+DefsMonotone == [][/\ \A n \in DOMAIN defs : n \in DOMAIN defs'
+                   /\ OwnSettingsOnly(hist') => \A n \in DOMAIN defs : defs'[n] = defs[n]]_vars
 EmitInv == (Len(hist) = MaxLen) => PrintT(ToJson(<<"beh", hist>>))
 View == <<defs, hist>>
 =============================================================================
